@@ -195,11 +195,18 @@ func (m *Variant) Decode(b []byte) (int, error) {
 	// validate that the total number of elements
 	// matches the product of the array dimensions
 	if m.arrayDimensionsLength > 0 {
-		count := int32(1)
+		// every dimension is at least 1, so the product only grows: stop as
+		// soon as it exceeds the array length. This also keeps the 64 bit
+		// product from overflowing and rejects dimensions on a null array.
+		n64 := int64(m.arrayLength)
+		count := int64(1)
 		for i := range m.arrayDimensions {
-			count *= m.arrayDimensions[i]
+			count *= int64(m.arrayDimensions[i])
+			if count > n64 {
+				return buf.Pos(), errUnbalancedSlice
+			}
 		}
-		if count != m.arrayLength {
+		if count != n64 {
 			return buf.Pos(), errUnbalancedSlice
 		}
 	}
